@@ -140,6 +140,7 @@ var compoundOps = map[string]bool{"+": true, "-": true, "*": true, "/": true, "%
 // opName gives the spelling of an operator inside finding keys (keys become file names).
 var opName = map[string]string{"+": "add", "-": "sub", "*": "mul", "/": "div", "%": "mod", "**": "pow", "&": "bitand", "|": "bitor", "^": "bitxor", "<<": "shl", ">>": "shr",
 	"==": "eq", "!=": "ne", "===": "identical", "!==": "notidentical", "<": "lt", "<=": "le", ">": "gt", ">=": "ge", "<=>": "spaceship", "&&": "and", "||": "or", ".": "concat"}
+
 // opFamily groups operators that share one implementation pattern; value / compound findings are
 // keyed by family so that one root cause gives one key.
 var opFamily = map[string]string{"+": "arith", "-": "arith", "*": "arith", "/": "div", "%": "mod", "**": "pow", "&": "bitwise", "|": "bitwise", "^": "bitwise", "<<": "shift", ">>": "shift",
@@ -272,11 +273,11 @@ func (w *world) identJob(form string, i int) (exprsem.Job, bool) {
 type failRec struct {
 	Forms  []string `json:"forms,omitempty"` // forms in which the cell failed (form-aggregated keys only)
 	AllF   bool     `json:"allf,omitempty"`  // failed in every form that exists for the cell
-	Key    string `json:"key"`
-	Clause string `json:"clause"`
-	Size   int    `json:"size"`
-	Case   caseT  `json:"case"`
-	Detail string `json:"detail"`
+	Key    string   `json:"key"`
+	Clause string   `json:"clause"`
+	Size   int      `json:"size"`
+	Case   caseT    `json:"case"`
+	Detail string   `json:"detail"`
 }
 
 type caseT struct {
@@ -366,7 +367,6 @@ func lawKinds(w *world, l, r int) string {
 	}
 	return "mixed-kinds"
 }
-
 
 // misjudged names the kind of the operand whose truthiness, if taken the other way round, explains
 // a wrong && / || result (non-boolean operands first), so that one broken truthiness rule is one key.
